@@ -520,6 +520,7 @@ func (l *layer) SkipVerify() {
 
 func (l *layer) Prefetch(prefetchSize int64) (err error) {
 	l.prefetchOnce.Do(func() {
+		verifhook.Gate("layer.prefetch.start", l)
 		ctx := context.Background()
 		l.resolver.backgroundTaskManager.DoPrioritizedTask()
 		defer l.resolver.backgroundTaskManager.DonePrioritizedTask()
@@ -547,6 +548,7 @@ func (l *layer) prefetch(ctx context.Context, prefetchSize int64) error {
 	rootID := l.verifiableReader.Metadata().RootID()
 	if _, _, err := l.verifiableReader.Metadata().GetChild(rootID, estargz.NoPrefetchLandmark); err == nil {
 		// do not prefetch this layer
+		verifhook.Gate("layer.prefetch.noprefetch", l)
 		return nil
 	} else if id, _, err := l.verifiableReader.Metadata().GetChild(rootID, estargz.PrefetchLandmark); err == nil {
 		offset, err := l.verifiableReader.Metadata().GetOffset(id)
@@ -560,6 +562,7 @@ func (l *layer) prefetch(ctx context.Context, prefetchSize int64) error {
 		prefetchSize = l.blob.Size()
 	}
 
+	verifhook.Gate("layer.prefetch.range", l, prefetchSize)
 	threshold := l.resolver.config.PrefetchAsyncSize
 	if threshold > 0 && prefetchSize > threshold {
 		log.G(ctx).Infof(
@@ -571,8 +574,10 @@ func (l *layer) prefetch(ctx context.Context, prefetchSize int64) error {
 	}
 
 	// Fetch the target range
+	verifhook.Gate("layer.prefetch.fetch", l, prefetchSize)
 	downloadStart := time.Now()
 	err := l.blob.Cache(0, prefetchSize)
+	verifhook.Gate("layer.prefetch.fetched", l, err)
 	commonmetrics.WriteLatencyLogValue(ctx, l.desc.Digest, commonmetrics.PrefetchDownload, downloadStart) // time to download prefetch data
 
 	if err != nil {
@@ -589,6 +594,7 @@ func (l *layer) prefetch(ctx context.Context, prefetchSize int64) error {
 	err = l.verifiableReader.Cache(reader.WithFilter(func(offset int64) bool {
 		return offset < prefetchSize // Cache only prefetch target
 	}))
+	verifhook.Gate("layer.prefetch.cached", l, err)
 	commonmetrics.WriteLatencyLogValue(ctx, l.desc.Digest, commonmetrics.PrefetchDecompress, decompressStart) // time to decompress prefetch data
 	if err != nil {
 		return fmt.Errorf("failed to cache prefetched layer: %w", err)
@@ -606,6 +612,7 @@ func (l *layer) WaitForPrefetchCompletion() error {
 
 func (l *layer) BackgroundFetch() (err error) {
 	l.backgroundFetchOnce.Do(func() {
+		verifhook.Gate("layer.bgfetch.start", l)
 		ctx := context.Background()
 		err = l.backgroundFetch(ctx)
 		if err != nil {
@@ -725,6 +732,7 @@ type waiter struct {
 func (w *waiter) done() {
 	w.doneOnce.Do(func() {
 		close(w.doneCh)
+		verifhook.Event("layer.waiter.closed", w)
 	})
 }
 
